@@ -7,18 +7,21 @@
 //	msg b <hex|->   -> ok                  client sends one binary message
 //	msg t <hex|->   -> ok                  client sends one text message
 //	recv <n>        -> <hex of n bytes>    next n bytes of the concatenated binary messages from the broker,
-//	                   | err-timeout:<hex|-> | closed:<hex|->   if fewer arrive (what did arrive is shown)
+//	                   | timeout:<hex|-> | closed:<hex|->   if fewer arrive (what did arrive is shown); `timeout` = broker and
+//	                     connection provably idle (goroutine states), `err-timeout:` = hard cap hit (harness-level)
 //	quiet           -> quiet | <hex> | closed:<hex|->        nothing more arrives within a short while
 package main
 
 import (
 	"context"
 	"encoding/hex"
+	"net"
 	"net/http/httptest"
 	"strings"
 	"time"
 
 	"verifharness/internal/drv"
+	"verifharness/internal/gstate"
 	"verifharness/internal/memnet"
 
 	"github.com/DrmagicE/gmqtt/config"
@@ -27,10 +30,11 @@ import (
 	_ "github.com/DrmagicE/gmqtt/topicalias/fifo"
 	"github.com/gorilla/websocket"
 	"go.uber.org/zap"
+	"golang.org/x/sys/unix"
 )
 
-const wait = 8 * time.Second // generous: the machine may be heavily loaded; a timeout is reported as err-… and retried
-const quietWait = 300 * time.Millisecond
+const wait = 20 * time.Second         // hard cap; reaching it is a harness-level failure (err-…, retried by core)
+const steady = 300 * time.Millisecond // how long the whole system must be idle before "nothing more will come"
 
 type broker interface {
 	server.Server
@@ -98,6 +102,74 @@ func showHex(b []byte) string {
 	return hex.EncodeToString(b)
 }
 
+func (d *echoDrv) readFrames(c *websocket.Conn, in chan frame) {
+	for {
+		mt, data, err := c.ReadMessage()
+		in <- frame{data: data, text: err == nil && mt != websocket.BinaryMessage, err: err}
+		if err != nil {
+			return
+		}
+	}
+}
+
+// idle reports that nothing more can arrive without new input: every broker goroutine is parked waiting for external
+// input, the client's reader is parked in the network poller, nothing is queued for us and the kernel holds no unread
+// byte for the client socket. (Decided from states, not from elapsed time: the machine may be heavily loaded.)
+func (d *echoDrv) idle() bool {
+	if len(d.in) != 0 || !gstate.InState("(*echoDrv).readFrames", "IO wait") {
+		return false
+	}
+	if tc, ok := d.client.UnderlyingConn().(*net.TCPConn); ok {
+		if rc, err := tc.SyscallConn(); err == nil {
+			n := -1
+			_ = rc.Control(func(fd uintptr) {
+				if v, err := unix.IoctlGetInt(int(fd), unix.TIOCINQ); err == nil {
+					n = v
+				}
+			})
+			if n != 0 {
+				return false
+			}
+		}
+	}
+	return gstate.AllWaiting("github.com/DrmagicE/gmqtt/", 1)
+}
+
+// collect appends arriving binary payloads to d.left until `enough` says so, the connection is closed, or the system
+// has been idle for `steady`. Returns "" | "text-frame" | "idle" | "err-timeout" (hard cap, harness-level).
+func (d *echoDrv) collect(enough func() bool) string {
+	hard := time.Now().Add(wait)
+	var since time.Time
+	for !enough() && !d.dead {
+		select {
+		case fr := <-d.in:
+			since = time.Time{}
+			if fr.err != nil {
+				d.dead = true
+			} else if fr.text {
+				return "text-frame"
+			} else {
+				d.left = append(d.left, fr.data...)
+			}
+			continue
+		case <-time.After(3 * time.Millisecond):
+		}
+		if d.idle() {
+			if since.IsZero() {
+				since = time.Now()
+			} else if time.Since(since) > steady {
+				return "idle"
+			}
+		} else {
+			since = time.Time{}
+		}
+		if time.Now().After(hard) {
+			return "err-timeout"
+		}
+	}
+	return ""
+}
+
 func (d *echoDrv) Step(line string) string {
 	f := strings.Fields(line)
 	if len(f) == 0 {
@@ -126,15 +198,7 @@ func (d *echoDrv) Step(line string) string {
 		d.client, d.left, d.dead = c, nil, false
 		in := make(chan frame, 4096)
 		d.in = in
-		go func() {
-			for {
-				mt, data, err := c.ReadMessage()
-				in <- frame{data: data, text: err == nil && mt != websocket.BinaryMessage, err: err}
-				if err != nil {
-					return
-				}
-			}
-		}()
+		go d.readFrames(c, in)
 		return "ok"
 	case d.client == nil:
 		return "bad-op"
@@ -154,22 +218,17 @@ func (d *echoDrv) Step(line string) string {
 		return "ok"
 	case f[0] == "recv" && len(f) == 2:
 		n := drv.Atoi(f[1])
-		deadline := time.After(wait)
-		for len(d.left) < n && !d.dead {
-			select {
-			case fr := <-d.in:
-				if fr.err != nil {
-					d.dead = true
-				} else if fr.text {
-					return "text-frame"
-				} else {
-					d.left = append(d.left, fr.data...)
-				}
-			case <-deadline:
-				out := "err-timeout:" + showHex(d.left)
-				d.left = nil
-				return out
-			}
+		switch d.collect(func() bool { return len(d.left) >= n }) {
+		case "text-frame":
+			return "text-frame"
+		case "idle":
+			out := "timeout:" + showHex(d.left)
+			d.left = nil
+			return out
+		case "err-timeout":
+			out := "err-timeout:" + showHex(d.left)
+			d.left = nil
+			return out
 		}
 		if len(d.left) < n {
 			out := "closed:" + showHex(d.left)
@@ -180,21 +239,11 @@ func (d *echoDrv) Step(line string) string {
 		d.left = d.left[n:]
 		return out
 	case f[0] == "quiet" && len(f) == 1:
-		deadline := time.After(quietWait)
-		for !d.dead {
-			select {
-			case fr := <-d.in:
-				if fr.err != nil {
-					d.dead = true
-				} else if fr.text {
-					return "text-frame"
-				} else {
-					d.left = append(d.left, fr.data...)
-				}
-				continue
-			case <-deadline:
-			}
-			break
+		switch d.collect(func() bool { return false }) {
+		case "text-frame":
+			return "text-frame"
+		case "err-timeout":
+			return "err-timeout:" + showHex(d.left)
 		}
 		out := "quiet"
 		if d.dead {
